@@ -22,8 +22,8 @@ def load_variants(prop: str) -> list[dict]:
     try:
         mod = importlib.import_module(f"selftest.variants.{prop.lower()}")
     except ImportError:
-        return load_seeds(prop)
-    return list(getattr(mod, "VARIANTS", [])) + load_seeds(prop)
+        return load_seeds(prop) + load_twins(prop)
+    return list(getattr(mod, "VARIANTS", [])) + load_seeds(prop) + load_twins(prop)
 
 
 def load_seeds(prop: str) -> list[dict]:
@@ -43,6 +43,25 @@ def load_seeds(prop: str) -> list[dict]:
         rules = sorted({r for t in meta.get("detected_by", []) for r in re.findall(r"C\d\d\.R\w+", t) if r.startswith(prop + ".")})
         if rules:
             out.append({"name": f"seed-{d}", "patch": pp, "expect": rules})
+    return out
+
+
+def load_twins(prop: str) -> list[dict]:
+    """Behaviour-preserving refactorings kept under /verif/twins (made by independent sub-agents): each must stay silent
+    for the properties listed in its meta.json."""
+    out = []
+    root = os.path.join(VERIF, "twins")
+    if not os.path.isdir(root):
+        return out
+    for d in sorted(os.listdir(root)):
+        mp = os.path.join(root, d, "meta.json")
+        pp = os.path.join(root, d, "patch.diff")
+        if not (os.path.exists(mp) and os.path.exists(pp)):
+            continue
+        with open(mp, encoding="utf-8") as f:
+            meta = json.load(f)
+        if prop in meta.get("properties", []):
+            out.append({"name": f"twin-{d}", "patch": pp, "expect": None})
     return out
 
 
